@@ -1318,3 +1318,57 @@ def check_labels_distinct(db, rep, rule):
                   "%s defines local label %d (line %s), but %s: a 2-D program that takes both paths gets `%d:` twice in its listing; `as` binds `%df` to the "
                   "nearest definition, Orc's fixups to the last one, so listing and machine code branch to different places" % (f.name, v, c.line, bad, v, v), line=c.line)
     return n
+
+
+def check_aligned_load_offsets(db, rep, rule):
+    """A vector load or store may be told "this address is aligned" (movdqa / movaps: a misaligned address raises #GP) only
+    when its displacement is the loop's own element offset - compiler->offset scaled by element sizes - added to an array
+    pointer the loop has aligned.  A displacement that contains a value chosen by the program (the constant of loadoffX, a
+    parameter) points somewhere else, so the aligned-flag argument of orc_x86_emit_mov_memoffset_{sse,mmx,avx} /
+    orc_x86_emit_mov_{sse,mmx,avx}_memoffset must then be FALSE.  Leaves of the displacement expression are followed through
+    the function's local definitions."""
+    import re
+    from facts import AnalysisBroken, access_path
+    from flow import reaching_defs
+    n = 0
+    for tub in ("orcrules-sse", "orcrules-mmx", "orcrules-avx"):
+        tu = db.tu(tub)
+        for f in tu.main_functions():
+            for c in f.calls():
+                m = re.match(r"^orc_x86_emit_mov_(memoffset_(sse|mmx|avx)|(sse|mmx|avx)_memoffset)$", c.name or "")
+                if not m:
+                    continue
+                a = c.args()
+                g = db.func(c.name)
+                pn = [p_["name"] for p_ in g.params] if g is not None else []
+                if "offset" not in pn or not any("aligned" in x for x in pn):
+                    continue
+                off, al = a[pn.index("offset")], a[[i for i, x in enumerate(pn) if "aligned" in x][0]]
+                if strip_casts(al).v == 0:
+                    continue
+                # leaves of the displacement
+                leaves, todo, seen = set(), [off], set()
+                while todo:
+                    e = todo.pop()
+                    for y in e.walk():
+                        if y.k == "DeclRefExpr" and y.get("dk") == "local" and (y.name, y.id) not in seen:
+                            seen.add((y.name, y.id))
+                            ds = reaching_defs(f, y.name, c)
+                            if len(seen) < 40:
+                                for d in ds:
+                                    src = d.c[1] if d.k == "BinaryOperator" else (d.c[0] if d.c else None)
+                                    if src is not None:
+                                        todo.append(src)
+                        elif y.k == "MemberExpr":
+                            leaves.add(access_path(y) or unparse(y))
+                foreign = sorted(l for l in leaves if l and (".value" in l or "->value" in l or "params" in l))
+                n += 1
+                rep.saw(f)
+                rep.check(not foreign, rule, "%s::%s" % (f.relfile, f.name), "%s@%s" % (c.name.replace("orc_x86_emit_", ""), c.line),
+                          "aligned access at the loop's own element offset",
+                          "%s passes `%s` as the aligned flag of a vector access whose displacement contains `%s`, a value chosen by the program: the address is "
+                          "the aligned array pointer PLUS that offset, movdqa faults on it (`loadoffl t, s, 1` on the array the loop aligns: SIGSEGV for every "
+                          "n that reaches the vector loop)" % (f.name, unparse(al)[:30], foreign[0] if foreign else ""), line=c.line)
+    if n < 10:
+        raise AnalysisBroken("only %d vector accesses with a non-constant aligned flag found in the x86 rules" % n)
+    return n
